@@ -538,7 +538,7 @@ theorem any_eq_false_filter (p : J → Bool) : ∀ xs : List J, xs.any p = false
 
 /-- `setCondition` as a function of the old `conditions` value -/
 theorem setCondition_ok_cases (status : KVs) (cond : J) (st' : KVs) (h : setCondition status cond = .ok st') :
-    ((lookup "conditions" status = none ∨ lookup "conditions" status = some .null) ∧
+    (lookup "conditions" status = none ∧
         st' = setKey "conditions" (.arr [cond]) status) ∨
     (∃ xs, lookup "conditions" status = some (.arr xs) ∧
         xs.any (fun x => x.isObj && x.get? "type" == cond.get? "type" && ((cond.get? "type").bind J.str?).isSome) = true ∧
@@ -550,10 +550,7 @@ theorem setCondition_ok_cases (status : KVs) (cond : J) (st' : KVs) (h : setCond
   split at h
   · rename_i h0
     left
-    exact ⟨Or.inl h0, (Except.ok.inj h).symm⟩
-  · rename_i h0
-    left
-    exact ⟨Or.inr h0, (Except.ok.inj h).symm⟩
+    exact ⟨h0, (Except.ok.inj h).symm⟩
   · rename_i xs h0
     right
     simp only at h
@@ -617,8 +614,7 @@ theorem C07_condition_exact (status : KVs) (cond : J) (st' : KVs) (t : String) (
       (xs'.filter (isCondOfType t)).length = max 1 (xs.filter (isCondOfType t)).length ∧
       xs'.filter (fun x => !isCondOfType t x) = xs.filter (fun x => !isCondOfType t x) := by
   have hc := isCondOfType_of_type ht
-  rcases setCondition_ok_cases status cond st' h with ⟨h1 | h1, _⟩ | ⟨ys, h1, ha, rfl⟩ | ⟨ys, h1, ha, rfl⟩
-  · rw [h0] at h1; simp at h1
+  rcases setCondition_ok_cases status cond st' h with ⟨h1, _⟩ | ⟨ys, h1, ha, rfl⟩ | ⟨ys, h1, ha, rfl⟩
   · rw [h0] at h1; simp at h1
   · rw [h0] at h1
     obtain rfl : xs = ys := by simpa using h1
@@ -643,19 +639,19 @@ theorem C07_condition_exact (status : KVs) (cond : J) (st' : KVs) (t : String) (
       rw [List.filter_append, hf, List.filter_cons_of_pos hc]; rfl
     · simp [List.filter_append, hc]
 
-/-- C07 (condition, failure): `setCondition` fails exactly when `conditions` exists and is neither null
-    nor a list, and then with a fixed message -/
+/-- C07 (condition, failure): `setCondition` fails exactly when `conditions` exists and is not a list (an explicit
+    `null` included, as `unstructured.NestedSlice` does), and then with a fixed message -/
 theorem C07_condition_error (status : KVs) (cond : J) (e : String) :
     setCondition status cond = .error e ↔
       e = "status.conditions is not a list" ∧
-      ∃ v, lookup "conditions" status = some v ∧ v ≠ .null ∧ v.isArr = false := by
-  have key : ∀ v : J, v ≠ .null → v.isArr = false → lookup "conditions" status = some v →
+      ∃ v, lookup "conditions" status = some v ∧ v.isArr = false := by
+  have key : ∀ v : J, v.isArr = false → lookup "conditions" status = some v →
       setCondition status cond = .error "status.conditions is not a list" := by
-    intro v hn ha h0
+    intro v ha h0
     unfold setCondition
     rw [h0]
     cases v with
-    | null => exact absurd rfl hn
+    | null => rfl
     | arr xs => simp [J.isArr] at ha
     | bool b => rfl
     | num n => rfl
@@ -666,25 +662,23 @@ theorem C07_condition_error (status : KVs) (cond : J) (e : String) :
     cases h0 : lookup "conditions" status with
     | none => unfold setCondition at h; rw [h0] at h; exact absurd h (by simp)
     | some v =>
-      by_cases hn : v = .null
-      · subst hn; unfold setCondition at h; rw [h0] at h; exact absurd h (by simp)
-      · cases ha : v.isArr with
-        | true =>
-          cases v with
-          | arr xs =>
-            unfold setCondition at h; rw [h0] at h
-            simp only at h
-            split at h <;> exact absurd h (by simp)
-          | null => simp [J.isArr] at ha
-          | bool b => simp [J.isArr] at ha
-          | num n => simp [J.isArr] at ha
-          | str s => simp [J.isArr] at ha
-          | obj kvs => simp [J.isArr] at ha
-        | false =>
-          rw [key v hn ha h0] at h
-          exact ⟨(Except.error.inj h).symm, v, rfl, hn, ha⟩
-  · rintro ⟨rfl, v, h0, hn, ha⟩
-    exact key v hn ha h0
+      cases ha : v.isArr with
+      | true =>
+        cases v with
+        | arr xs =>
+          unfold setCondition at h; rw [h0] at h
+          simp only at h
+          split at h <;> exact absurd h (by simp)
+        | null => simp [J.isArr] at ha
+        | bool b => simp [J.isArr] at ha
+        | num n => simp [J.isArr] at ha
+        | str s => simp [J.isArr] at ha
+        | obj kvs => simp [J.isArr] at ha
+      | false =>
+        rw [key v ha h0] at h
+        exact ⟨(Except.error.inj h).symm, v, rfl, ha⟩
+  · rintro ⟨rfl, v, h0, ha⟩
+    exact key v ha h0
 
 /-- the rollout conditions of `syncRollingUpdate` are objects of type "Updated" -/
 theorem condJ_type (s r m : String) : (condJ s r m).get? "type" = some (.str "Updated") := by
@@ -700,6 +694,8 @@ example : setCondition [("conditions", .arr [.obj [("type", .str "Ready")], cond
 example : ((([J.obj [("type", .str "Ready")], condJ "False" "RolloutWaiting" "w"] : List J).filter
     (isCondOfType "Updated")).length ≤ 1) := by decide
 example : setCondition [("conditions", .str "oops")] (condJ "True" "OnLatestRevision" "m") =
+    .error "status.conditions is not a list" := by rfl
+example : setCondition [("conditions", .null)] (condJ "True" "OnLatestRevision" "m") =
     .error "status.conditions is not a list" := by rfl
 
 /-! ## 18. claim filtering (`syncRevisionClaims`) -/
